@@ -1,8 +1,10 @@
 """C08 - mappings are unordered, lists are ordered.
 
 Implementation side: for a pair of documents (a, b) and K arrangements of the keys of their mappings (at every depth, both
-documents; arrangement 0 is the pair as given) every arrangement is built with the real graphtage.json.build_tree under one
-of the 9 option sets and diffed: recorded are the built trees, the complete nested edit script with own final costs, ==
+documents; arrangement 0 is the pair as given) every arrangement is built under one of the 9 option sets through EACH of the
+three entry points that turn plain data into a tree - graphtage.json.build_tree (all file loaders),
+graphtage.builder.BasicBuilder(options).build_tree and graphtage.pydiff.build_tree (PyObjBuilder, pydiff.diff) - and diffed
+(one Gallina case per entry point, the same statement and the same model `build` for all three): recorded are the built trees, the complete nested edit script with own final costs, ==
 between the tree of the document as given and the tree of its permuted copy, and the final cost of diffing those two.
 For lists: two positions are exchanged and the final cost of the edit is recorded.
 Verdicts: Gallina `holds_C08` / `holds_C08_partial` / `in_domain` (BuildSpec.v: equal costs, equal multisets of
@@ -94,11 +96,30 @@ def impl_case(item):
         return {'ta': rec['a'], 'tb': rec['b'], 'cost': _top_cost(rec['script']), 'matchings': rec['matchings'],
                 'orders': rec['orders']}
     vs = [(dec(a), dec(b)) for a, b in item['vars']]
+    builders = entry_points(mk)
+    return {'eps': {ep: _perm_through(builders[ep], vs, item.get('no_oracle')) for ep in item.get('eps', ENTRY_POINTS)}}
+
+
+ENTRY_POINTS = ['json', 'basic', 'pyobj']
+
+
+def entry_points(mk):
+    """The three ways plain Python data becomes a tree: graphtage.json.build_tree (all file loaders),
+    graphtage.builder.BasicBuilder(options).build_tree, graphtage.pydiff.build_tree (PyObjBuilder; pydiff.diff)."""
+    from graphtage import json as gjson
+    from graphtage import builder as gbuilder
+    from graphtage import pydiff as gpydiff
+    return {'json': lambda v: gjson.build_tree(v, mk()),
+            'basic': lambda v: gbuilder.BasicBuilder(mk()).build_tree(v),
+            'pyobj': lambda v: gpydiff.build_tree(v, mk())}
+
+
+def _perm_through(bt, vs, no_oracle):
     a0, b0 = vs[0]
     out = []
     oracle = None
     for k, (a, b) in enumerate(vs):
-        if k == 0 and not item.get('no_oracle'):
+        if k == 0 and not no_oracle:
             rec = sl.run_script(lambda: (bt(a), bt(b)))
             ta, tb, script = rec['a'], rec['b'], rec['script']
             oracle = {'matchings': rec['matchings'], 'orders': rec['orders']}
@@ -330,7 +351,7 @@ def gen_mixed(tier, rng):
             b = mk(1)
         vs = [[a, b]] + [[permute(rng, a), permute(rng, b)] for _ in range(K - 1)]
         items.append({'kind': 'perm', 'opts': list(sl.OPTION_SETS[k % 9]), 'vars': [[enc(x), enc(y)] for x, y in vs],
-                      'stream': 'mixed-keys', 'no_oracle': True})
+                      'stream': 'mixed-keys', 'no_oracle': True, 'eps': ['json']})
     return items
 
 
@@ -344,7 +365,7 @@ def nontrivial(it):
 
 
 def pub(it):
-    return {k: it[k] for k in ('kind', 'opts', 'vars', 'l', 'i', 'j', 'no_oracle') if k in it}
+    return {k: it[k] for k in ('kind', 'opts', 'vars', 'l', 'i', 'j', 'no_oracle', 'ep', 'eps') if k in it}
 
 
 # ------------------------------------------------------------------ check / replay
@@ -366,7 +387,12 @@ def evaluate(run, wd, st, items, tag='cases', with_corr=True, count=True):
         if count:
             run.count(pub(it), nontrivial(it))
         if 'ok' in r:
-            ok.append((it, r['ok']))
+            if it['kind'] == 'perm':
+                # one case per entry point: the same Gallina statement about the trees each of them built
+                for ep, ru in r['ok']['eps'].items():
+                    ok.append((dict(it, ep=ep, eps=[ep]), ru))
+            else:
+                ok.append((it, r['ok']))
         else:
             run.violation({'kind': 'internal-error', 'input': pub(it), 'result': r,
                            'note': 'building or diffing a key-permuted copy / a list with two elements exchanged raised'})
@@ -403,7 +429,7 @@ def report(run, ok, bad, known):
             continue
         if n_viol < 3:
             it, r = ok[i]
-            run.violation({'kind': 'holds_C08-false', 'input': pub(it), 'observed': summary(it, r),
+            run.violation({'kind': 'holds_C08-false', 'input': pub(it), 'entry_point': it.get('ep', 'json'), 'observed': summary(it, r),
                            'note': 'cost / pairing changes with the order of keys, or a key-permuted copy is not equal at cost 0, '
                                    'or swapping two unequal list elements costs 0 outside the open classes D4 / D16'})
         n_viol += 1
@@ -448,11 +474,11 @@ def check(tier, seed):
         run.cov['known_finding_cases'] = {k: len(v) for k, v in hits.items()}
         streams = {}
         for it, r in ok:
-            s = streams.setdefault(it.get('stream', 'corpus'), {'cases': 0, 'arrangements': 0})
+            s = streams.setdefault(it.get('stream', 'corpus') + ('/' + it['ep'] if 'ep' in it else ''), {'cases': 0, 'arrangements': 0})
             s['cases'] += 1
             s['arrangements'] += len(it['vars']) if it['kind'] == 'perm' else 1
         run.cov['streams'] = streams
-        ex = [it for it, _ in ok if it.get('stream') == 'exhaustive']
+        ex = [it for it, _ in ok if it.get('stream') == 'exhaustive' and it.get('ep') == 'json']
         run.cov['exhaustive_cases_fully_enumerated'] = sum(1 for it in ex if it.get('all_covered'))
         # mappings with keys of mixed type: outside the theorems, reported only
         mixed = gen_mixed(tier, rng)
@@ -514,7 +540,8 @@ def replay(path):
         fn = 'holds_C08'
         if known:
             fn = '(fun c => holds_C08 c || ' + ' || '.join(f'{c} c' for c in KF_CLASSES if c in known) + ')'
-        bad, err = common.coq_eval_cases(wd, 'replay', HEADER_SPEC, [case_term(it, r['ok'])], [f'bad_cases {fn}'])
+        units = list(r['ok']['eps'].values()) if it['kind'] == 'perm' else [r['ok']]
+        bad, err = common.coq_eval_cases(wd, 'replay', HEADER_SPEC, [case_term(it, u) for u in units], [f'bad_cases {fn}'])
         if err or bad[0]:
             print(f'VIOLATION property={PROP} replay={path}')
             return 1
